@@ -127,7 +127,7 @@ def _mk_write_ref():
     mod, tree = lift._module_tree('replicat.repository')
     o = lift._find_def(tree, 'restore')
     i = lift._find_def(o, '_write_chunk_ref')
-    i = lift.Yielder({'glock', 'flock'}).instrument(i)
+    i = lift.Yielder({'glock', 'flock'}, spin=True).instrument(i)    # a thread that finds a lock held waits (yields) until it is free
     fac = ast.FunctionDef(name='_factory', args=lift._args(['self', 'files_metadata', 'glock', 'flocks', 'flocks_refcounts', 'bytes_tracker']),
                           body=[i, ast.Return(ast.Name('_write_chunk_ref', ast.Load()))], decorator_list=[], type_params=[])
     m = ast.Module(body=[fac], type_ignores=[])
@@ -212,9 +212,7 @@ def t2_locks(k: int) -> bool:
             except StopIteration:
                 live[j] = False
             except _WouldBlock:
-                # blocked on a lock held by a pre-empted thread: a real thread would wait; the generator is dead after the
-                # exception, so this schedule is not executable at this granularity - ignore it
-                return True
+                return False        # cannot happen: lock acquisition is preceded by a spin-wait on .held
             break
     with NoTracing():
         tick('t2', None)
@@ -266,6 +264,7 @@ class _Hooks(ast.NodeTransformer):
 
     def visit_FunctionDef(self, node):
         if node.name == '_chunk_producer':
+            node = _BlockingPut().visit(node)
             return lift.Yielder(set()).instrument(node)
         self.generic_visit(node)
         return node
@@ -307,6 +306,21 @@ class _Hooks(ast.NodeTransformer):
         return t
 
 
+class _BlockingPut(ast.NodeTransformer):
+    """`q.put(x)` without a timeout blocks the producer thread while the loop thread keeps running: in the cooperative model
+    it becomes `while q.full(): yield 'blocked-put'` followed by a non-blocking put."""
+
+    def visit_Expr(self, node):
+        c = node.value
+        if isinstance(c, ast.Call) and isinstance(c.func, ast.Attribute) and c.func.attr == 'put' and \
+                not any(k.arg in ('timeout', 'block') for k in c.keywords) and len(c.args) == 1:
+            spin = ast.While(ast.Call(ast.Attribute(c.func.value, 'full', ast.Load()), [], []),
+                             [ast.Expr(ast.Yield(ast.Constant('blocked-put')))], [])
+            c.keywords.append(ast.keyword('block', ast.Constant(False)))
+            return [spin, node]
+        return node
+
+
 class CoopExecutor:
     """Executor for the producer 'thread': the submitted generator function is advanced by the scheduler."""
     current = None
@@ -326,14 +340,19 @@ class CoopExecutor:
         return f
 
     def advance(self, steps):
-        if self.gen is None:
-            return
+        if self.gen is None or getattr(self, 'running', False):
+            return              # (the producer is blocked inside put(): it cannot be scheduled again until put returns)
         _SCHED['blocked'] = False
         for _ in range(steps):
             if _SCHED['blocked']:
                 break
             try:
-                next(self.gen)
+                self.running = True
+                try:
+                    if next(self.gen) == 'blocked-put':
+                        return
+                finally:
+                    self.running = False
             except StopIteration as e:
                 self.gen = None
                 self.future.set_result(e.value)
@@ -422,6 +441,7 @@ def snapshot_case(conc, pat, fs, delays, fail):
             return await snap(repo, paths=[src])
         # the producer also advances whenever the loop is about to run a step (another thread runs whenever it likes)
         orig_step = loop._step
+        _SCHED['loop'], _SCHED['raw_step'] = loop, orig_step
 
         def step():
             _pp()
@@ -476,6 +496,7 @@ def snapshot_case(conc, pat, fs, delays, fail):
         repo2 = fresh_repo(U, 'A', be2, concurrent=1)
         loop2 = rt.MiniLoop()
         o2 = loop2._step
+        _SCHED['loop'], _SCHED['raw_step'] = loop2, o2
 
         def step2():
             _pp()
